@@ -163,9 +163,48 @@ fn run<const N: usize>(job: &Value) {
     }
 }
 
+/// Text jobs (Label / Hex parsing and printing): one output line per call.
+fn run_text(job: &Value) {
+    use std::str::FromStr;
+    for (k, c) in job["calls"].as_array().unwrap().iter().enumerate() {
+        let out = match c["op"].as_str().unwrap() {
+            "parse" => {
+                let bytes = bytes_from(&c["bytes"]);
+                let txt = String::from_utf8(bytes).expect("replay text is not UTF-8");
+                match Label::from_str(&txt) {
+                    Ok(l) => json!({"i": k, "ok": true, "label": label_to(&l), "printed": l.to_string().as_bytes()}),
+                    Err(e) => json!({"i": k, "ok": false, "error": e.to_string()}),
+                }
+            }
+            "print" => {
+                let l = label_from(&c["label"]);
+                let txt = l.to_string();
+                match Label::from_str(&txt) {
+                    Ok(m) => json!({"i": k, "printed": txt.as_bytes(), "ok": true, "label": label_to(&m), "equal": m == l}),
+                    Err(e) => json!({"i": k, "printed": txt.as_bytes(), "ok": false, "error": e.to_string()}),
+                }
+            }
+            "hex_print" => {
+                let h = hex_from(&c["d"]);
+                let txt = h.print();
+                match Hex::from_str(&txt) {
+                    Ok(g) => json!({"i": k, "printed": txt.as_bytes(), "ok": true, "bytes": g.bytes(), "equal": g == h}),
+                    Err(e) => json!({"i": k, "printed": txt.as_bytes(), "ok": false, "error": e.to_string()}),
+                }
+            }
+            op => panic!("unknown text op {op}"),
+        };
+        println!("{out}");
+    }
+}
+
 fn main() {
     let path = std::env::args().nth(1).expect("usage: replay <job.json>");
     let job: Value = serde_json::from_str(&std::fs::read_to_string(path).unwrap()).unwrap();
+    if job["text"].as_bool() == Some(true) {
+        run_text(&job);
+        return;
+    }
     match job["n"].as_u64().unwrap() {
         1 => run::<1>(&job),
         2 => run::<2>(&job),
